@@ -133,7 +133,19 @@ def gen_doc(rng):
     defs, body = '', ''
     for _ in range(rng.randint(2, 4)):
         r = rng.random()
-        if r < 0.45: body += group(1)
+        if r < 0.08:
+            # content authored in tiny local units, brought to size by a large scale (a group transform or a tiny viewBox)
+            c = rng.choice(COL); k = rng.choice([1000, 10000]); u = lambda v: repr(v / k)
+            pth = f'<path d="M{u(1)},{u(1)} l{u(7)},{u(1)} l-{u(2)},{u(6)} z" fill="{c}"/>' if rng.random() < 0.5 else \
+                  f'<path d="M0,0 L{u(8)},{u(2)} L{u(3)},{u(7)} L{u(0.5)},{u(0.4)} Z M{u(0.6)},{u(0.5)} L{u(9)},{u(9)} L{u(0)},{u(8)} Z" fill="{c}"/>'
+            if rng.random() < 0.3:
+                # ... or in huge local units under a tiny scale (the CTM's determinant is ~1e-10, and not zero)
+                K = 50000; U = lambda v: str(int(v * K))
+                pth = f'<path d="M{U(1)},{U(1)} l{U(7)},{U(1)} l-{U(2)},{U(6)} z" fill="{c}"/>'
+                body += f'<g transform="translate({rng.randint(0, 8)},{rng.randint(0, 8)}) scale({repr(1 / K)})">{pth}</g>'
+            elif rng.random() < 0.6: body += f'<g transform="translate({rng.randint(0, 8)},{rng.randint(0, 8)}) scale({k})">{pth}</g>'
+            else: body += f'<svg x="{rng.randint(0, 8)}" y="{rng.randint(0, 8)}" width="10" height="10" viewBox="0 0 {u(10)} {u(10)}">{pth}</svg>'
+        elif r < 0.45: body += group(1)
         elif r < 0.7: body += shape()
         elif r < 0.87:
             i = len(ids); ids.append(i)
@@ -154,8 +166,9 @@ def gen_doc(rng):
                 size = rng.choice(['', f' width="{rng.choice([5, 8])}" height="{rng.choice([5, 8])}"', f' width="{rng.choice([5, 8])}"'])
                 inner = (f'<svg x="{rng.randint(0, 3)}" y="{rng.randint(0, 3)}"{size} viewBox="0 0 {rng.choice([10, 5])} {rng.choice([10, 8])}" '
                          f'overflow="visible">{shape()}</svg>')
+            vbox = f'viewBox="{rng.randint(0, 3)} {rng.randint(0, 3)} {rng.choice([10, 20])} {rng.choice([10, 16])}" ' if rng.random() < 0.8 else ''    # no viewBox: placed at x,y unscaled
             body += (f'<svg x="{rng.randint(0, 8)}" y="{rng.randint(0, 8)}" width="{rng.choice([6, 8, 10])}" height="{rng.choice([6, 8])}" '
-                     f'viewBox="{rng.randint(0, 3)} {rng.randint(0, 3)} {rng.choice([10, 20])} {rng.choice([10, 16])}" preserveAspectRatio="{par}"{ov}>{shape()}{inner}{shape()}</svg>')
+                     f'{vbox}preserveAspectRatio="{par}"{ov}>{shape()}{inner}{shape()}</svg>')
     return f'<svg xmlns="{SVGNS}" xmlns:xlink="http://www.w3.org/1999/xlink" viewBox="0 0 20 20"><defs>{defs}</defs>{body}</svg>'
 
 def judge_doc(doc):
